@@ -36,6 +36,8 @@ def run(ck: Check, repo: Repo) -> None:
     _sample(ck, repo, rb)
     _multi_agent(ck, repo)
     _reset(ck, repo)
+    from ._c09_r5 import run_r5
+    run_r5(ck, repo)
 
 
 # ------------------------------------------------------------------------------------------------
